@@ -209,7 +209,7 @@ impl fmt::Display for Formatter {
                     }
                     Token::DayOfYearInteger => {
                         write_sep(f, i, &self.format)?;
-                        write!(f, "{:03}", self.epoch.day_of_year().floor() as u16)?
+                        write!(f, "{:03}", self.epoch.duration_in_year().decompose().1 + 1)?
                     }
                     Token::DayOfYear => {
                         write_sep(f, i, &self.format)?;
@@ -217,11 +217,11 @@ impl fmt::Display for Formatter {
                     }
                     Token::Weekday => {
                         write_sep(f, i, &self.format)?;
-                        write!(f, "{}", self.epoch.weekday())?
+                        write!(f, "{}", self.epoch.gregorian_weekday())?
                     }
                     Token::WeekdayShort => {
                         write_sep(f, i, &self.format)?;
-                        write!(f, "{:x}", self.epoch.weekday())?
+                        write!(f, "{:x}", self.epoch.gregorian_weekday())?
                     }
                     Token::WeekdayDecimal => {
                         write_sep(f, i, &self.format)?;
@@ -280,7 +280,7 @@ impl fmt::Display for Formatter {
                     }
                     Token::DayOfYearInteger => {
                         write_sep(f, i, &self.format)?;
-                        write!(f, "{:03}", self.epoch.day_of_year().floor() as u16)?
+                        write!(f, "{:03}", self.epoch.duration_in_year().decompose().1 + 1)?
                     }
                     Token::DayOfYear => {
                         write_sep(f, i, &self.format)?;
@@ -288,11 +288,11 @@ impl fmt::Display for Formatter {
                     }
                     Token::Weekday => {
                         write_sep(f, i, &self.format)?;
-                        write!(f, "{}", self.epoch.weekday())?
+                        write!(f, "{}", self.epoch.gregorian_weekday())?
                     }
                     Token::WeekdayShort => {
                         write_sep(f, i, &self.format)?;
-                        write!(f, "{:x}", self.epoch.weekday())?
+                        write!(f, "{:x}", self.epoch.gregorian_weekday())?
                     }
                     Token::WeekdayDecimal => {
                         write_sep(f, i, &self.format)?;
